@@ -38,6 +38,13 @@ def insertCount (x : Int) : List (Int × Int) → List (Int × Int)
 def uniqueCounts (a : Array Int) : Array Int :=
   ((a.toList.foldl (fun acc x => insertCount x acc) []).map (·.2)).toArray
 
+/-- `np.unique(a, return_counts=True)[0]`: the sorted distinct values. -/
+def uniqueVals (a : Array Int) : Array Int :=
+  ((a.toList.foldl (fun acc x => insertCount x acc) []).map (·.1)).toArray
+
+/-- `np.arange(n)`. -/
+def arange (n : Int) : Array Int := ((List.range n.toNat).map Int.ofNat).toArray
+
 /-- `for x, y in zip(a, b): body` over the tuple `σ` of tables the body updates (`zip` stops at the shorter one). -/
 def forZip {σ : Type} (a b : Array Int) (body : Int → Int → σ → Option σ) (s : σ) : Option σ :=
   (a.toList.zip b.toList).foldlM (fun s p => body p.1 p.2 s) s
